@@ -1191,6 +1191,10 @@ def gen_hardening(ctx, cases):
         ctx.count("forms:variant")
         if out == "NOT-ACCEPTED":
             ctx.count("forms:not-accepted:%s:%s" % (name, tag))
+            if name in ("bisect", "brentq") and "maxiter:uint" in tag:
+                # `itr` is range(maxiter) in one branch (unsigned) and the literal 0 in the other: Numba cannot unify
+                finding(ctx, "bracket_unsigned_maxiter_refused", "%s refuses an unsigned NumPy integer maxiter (TypingError: itr cannot be "
+                        "unified), while newton / newton_halley / newton_secant / brent_max accept it" % name, {"op": name, "form": tag})
         elif out != canon[name]:
             ctx.spec_fail("argform_variant", "%s called with %s gives %s, canonical keyword/float call gives %s" % (name, tag, out, canon[name]),
                           {"op": name, "form": tag, "got": out, "canonical": canon[name]})
